@@ -122,6 +122,84 @@ func (w *world) execAdmission(r *hx.Run, op []string) (string, bool) {
 			r.Nontrivial(fmt.Sprintf("admit/%d-signers", len(signers)))
 		}
 		return "ok:" + ret + " - " + digest(w.now().text()), true
+	case "admitx":
+		// a transaction with real signature entries (public keys and threshold per entry, as the wire format carries
+		// them); the signer addresses are what the code derives from the entries: the single-key address, or the
+		// multi-signature address of the whole entry. Token 2 lists those addresses (checked here independently).
+		if len(op) != 3 {
+			return "bad-op", true
+		}
+		var sigs []types.Sig
+		var want []common.Address
+		if op[1] != "-" {
+			for _, e := range strings.Split(op[1], ";") {
+				mk := strings.SplitN(e, ":", 2)
+				if len(mk) != 2 {
+					return "bad-op", true
+				}
+				m, ok := u64(mk[0])
+				if !ok {
+					return "bad-op", true
+				}
+				var pks []keypair.PublicKey
+				for _, h := range strings.Split(mk[1], ",") {
+					b, err := hex.DecodeString(h)
+					if err != nil {
+						return "bad-op", true
+					}
+					pk, err := keypair.DeserializePublicKey(b)
+					if err != nil {
+						return "bad-op", true
+					}
+					pks = append(pks, pk)
+				}
+				if len(pks) == 0 || m == 0 || int(m) > len(pks) {
+					return "bad-op", true
+				}
+				sigs = append(sigs, types.Sig{PubKeys: pks, M: uint16(m), SigData: make([][]byte, m)})
+				if len(pks) == 1 {
+					want = append(want, types.AddressFromPubKey(pks[0]))
+				} else {
+					a, err := types.AddressFromMultiPubKeys(pks, int(m))
+					if err != nil {
+						return "bad-op", true
+					}
+					want = append(want, a)
+				}
+			}
+		}
+		var ws []string
+		for _, a := range want {
+			ws = append(ws, ahex(a))
+		}
+		if tokStr(strings.Join(ws, ",")) != op[2] {
+			return "bad-op", true
+		}
+		w.useAsLedger()
+		err := tp.VerifIsValidSender(&types.Transaction{Sigs: sigs})
+		exp := false
+		perm := map[common.Address]bool{}
+		for _, a := range tp.VerifPermittedAddrs() {
+			perm[a] = true
+		}
+		rl := map[string]bool{}
+		for _, a := range w.now().rl {
+			rl[a] = true
+		}
+		for _, a := range want {
+			if perm[a] || rl[ahex(a)] {
+				exp = true
+			}
+		}
+		if exp != (err == nil) {
+			r.Viol("C36:admission-differs-from-registry:signature-entries", fmt.Sprintf("signature entries %s (entry addresses %s): admitted=%v, but a registered relayer or permitted address among the entry addresses: %v", op[1], op[2], err == nil, exp))
+		}
+		ret := "0"
+		if err == nil {
+			ret = "1"
+			r.Nontrivial(fmt.Sprintf("admitx/%d-entries", len(sigs)))
+		}
+		return "ok:" + ret + " - " + digest(w.now().text()), true
 	case "refresh":
 		if len(op) != 2 {
 			return "bad-op", true
@@ -159,7 +237,43 @@ func (f *gov) genAdmission(s *sc) {
 	for h := 0; h < nHist; h++ {
 		n := 4 + h%4
 		s.start(fmt.Sprintf("admission-N%d-%d", n, h), n, 1, 100000)
-		rel := []actor{s.newAddr(), s.newAddr(), s.newAddr(), s.newAddr()}
+		rel := []actor{s.newKey(), s.newKey(), s.newKey(), s.newKey()} // relayer accounts (single-key addresses)
+		outsiderKeys := []actor{s.newKey(), s.newKey()}
+		entry := func(m int, ks ...actor) (string, string) {
+			var hs []string
+			var pks []keypair.PublicKey
+			for _, k := range ks {
+				hs = append(hs, k.pk)
+				b, _ := hex.DecodeString(k.pk)
+				pk, _ := keypair.DeserializePublicKey(b)
+				pks = append(pks, pk)
+			}
+			a := types.AddressFromPubKey(pks[0])
+			if len(pks) > 1 {
+				a, _ = types.AddressFromMultiPubKeys(pks, m)
+			}
+			return fmt.Sprintf("%d:%s", m, strings.Join(hs, ",")), ahex(a)
+		}
+		// transactions with real signature entries: a listed key that is a relayer / validator but whose entry address
+		// (the multi-signature address) is not registered must not vouch for the transaction
+		queryx := func() {
+			keys := append(append(append([]actor{}, rel...), outsiderKeys...), s.vals...)
+			var es, as []string
+			for j := 0; j < 1+r.Rng.Intn(2); j++ {
+				n := 1 + r.Rng.Intn(3)
+				var ks []actor
+				for len(ks) < n {
+					ks = append(ks, s.pick(keys))
+				}
+				if n > 1 && r.Rng.Bool() {
+					ks[0] = s.pick(outsiderKeys) // outsider first: the one who would sign a 1-of-n
+				}
+				e, a := entry(1+r.Rng.Intn(n), ks...)
+				es = append(es, e)
+				as = append(as, a)
+			}
+			s.do("admitx %s %s", strings.Join(es, ";"), strings.Join(as, ","))
+		}
 		owner := s.newAddr()
 		query := func() {
 			pool := []actor{}
@@ -193,6 +307,11 @@ func (f *gov) genAdmission(s *sc) {
 			s.do("admit %s", a.hex())
 			s.do("admit %s", b.hex())
 			s.do("admit -")
+			for _, ks := range [][]actor{{a}, {outsiderKeys[0], a}, {a, outsiderKeys[0]}, {outsiderKeys[0], s.vals[0]}, {outsiderKeys[0]}} {
+				e, ad := entry(1, ks...)
+				s.do("admitx %s %s", e, ad)
+			}
+			s.do("admitx - -")
 			s.do("rlrm %s %s %s,%s,%s,%s", owner.hex(), owner.hex(), a.hex(), b.hex(), a.hex(), c.hex())
 			s.fullRound(func(sg, cl string) string { return fmt.Sprintf("rlapprrm %s 0 %s", sg, cl) })
 			s.do("admit %s", a.hex())
@@ -246,6 +365,7 @@ func (f *gov) genAdmission(s *sc) {
 			if r.Rng.Bool() {
 				query()
 			}
+			queryx()
 		}
 		s.do("dump")
 	}
